@@ -182,7 +182,9 @@ class Methods:
                             if item.fixed and len(item.pre) == 1 and not isinstance(item.pre[0], frozenset):
                                 r.form = ({('index:' + seq, item.pre[0]): 1}, 0)
                             return r
-                    return Int(0, max(len(seq) - 1, 0))
+                    r = Int(0, max(len(seq) - 1, 0))
+                    r.deps = frozenset(c for c in item.cells() if not isinstance(c, frozenset))
+                    return r
             self.ctx.raise_('ValueError', node, env, '.index(%r) on constant string' % (item,))
             return Int(0, max(len(seq) - 1, 0))
         self.ctx.raise_('ValueError', node, env, '.index on sequence')
